@@ -658,7 +658,18 @@ func (e *Explorer) Explore(t *testing.T, rep *Report) {
 				break
 			}
 		}
-		t.Fatalf("scenario %s is not deterministic under the controlled scheduler:\n%v\n--- vs ---\n%v\noutcomes %q vs %q", e.Sc.Name, a.Trace(), b.Trace(), a.outcome, b.outcome)
+		// The explorer owns every store call, the clock and the identifiers, and proves it on the unchanged tree at every
+		// run: if the same schedule gives two different observations, what the operations do depends on something inside
+		// the process that is not a function of the schedule (e.g. a select between two ready channels whose choice
+		// changes the result). That is reported as a violation of the property, with both traces.
+		rep.Violate(rep.Property+"|not-a-function-of-the-schedule|"+e.Sc.Name, fmt.Sprintf("scenario %s, the default schedule run twice: outcomes %q vs %q\n%v\n--- vs ---\n%v", e.Sc.Name, a.outcome, b.outcome, a.Trace(), b.Trace()),
+			map[string]interface{}{"scenario": e.Sc.Name, "choices": []int{}, "trace": a.Trace(), "trace_of_second_run": b.Trace()})
+		for _, x := range []*Exec{a, b} {
+			for _, v := range x.viol {
+				rep.Violate(v.sig, v.detail+"\nschedule: "+strings.Join(x.Trace(), " ; "), map[string]interface{}{"scenario": e.Sc.Name, "choices": x.Choices, "trace": x.Trace()})
+			}
+		}
+		return
 	}
 	e.Determined = true
 	stack := []dfsNode{{nil, 0}}
@@ -688,7 +699,10 @@ func (e *Explorer) Explore(t *testing.T, rep *Report) {
 		}
 		x := RunExec(t, e.Sc, n.prefix)
 		if x.Diverged != "" {
-			t.Fatalf("scenario %s: %s (prefix %v)", e.Sc.Name, x.Diverged, n.prefix)
+			// replaying a recorded prefix met a different menu of parked calls: same cause as above
+			rep.Violate(rep.Property+"|not-a-function-of-the-schedule|"+e.Sc.Name, fmt.Sprintf("scenario %s: %s (prefix %v)\n%v", e.Sc.Name, x.Diverged, n.prefix, x.Trace()),
+				map[string]interface{}{"scenario": e.Sc.Name, "choices": n.prefix, "trace": x.Trace()})
+			continue
 		}
 		if owned {
 			e.Execs++
